@@ -100,7 +100,7 @@ def modelDrain (l : Line) (ikv : List (String × String)) (fired : Option String
 def parseObs (kv : List (String × String)) : Option Spec.C08.Obs := do
   pure { delivered := ← getN? kv "delivered", cut := getS kv "cut" == "1", run := parseRun (getS kv "run"),
          end_ := ← parseEnd (getS kv "end"), ops := ← getN? kv "ops",
-         seqOk := getS kv "seq" == "ok" || getS kv "seq" == "na" }
+         seqOk := getS kv "seq" == "ok" || getS kv "seq" == "na", seqTail := getS kv "seq" == "tail" }
 
 def parseHits (kv : List (String × String)) : Spec.C08.Hits :=
   { r := getS kv "rhit" == "1", c := getS kv "chit" == "1", o := getS kv "ohit" == "1" }
